@@ -337,9 +337,15 @@ impl PropertySet {
         let num_properties = self.properties.len() as u32;
         let mut section_size: u32 = 8 + 8 * num_properties;
         let mut property_offsets: Vec<u32> = Vec::new();
+        let mut encoded_values: Vec<Vec<u8>> = Vec::new();
         for (_, value) in self.properties.iter() {
+            // Take the offsets from the bytes that will actually be written;
+            // the encoded length of a string depends on the code page.
+            let mut encoded = Vec::<u8>::new();
+            value.write(&mut encoded, self.codepage)?;
             property_offsets.push(section_size);
-            section_size += value.size_including_padding();
+            section_size += encoded.len() as u32;
+            encoded_values.push(encoded);
         }
         writer.write_u32::<LittleEndian>(section_size)?;
         writer.write_u32::<LittleEndian>(num_properties)?;
@@ -347,8 +353,8 @@ impl PropertySet {
             writer.write_u32::<LittleEndian>(name)?;
             writer.write_u32::<LittleEndian>(property_offsets[index])?;
         }
-        for (_, value) in self.properties.iter() {
-            value.write(writer.by_ref(), self.codepage)?;
+        for encoded in encoded_values.iter() {
+            writer.write_all(encoded)?;
         }
         Ok(())
     }
